@@ -16,9 +16,20 @@ PID = "C11"
 def gen_path(rng, thorough):
     els = []
     pos = [Fraction(rng.randint(-20, 20)), Fraction(rng.randint(-20, 20)), Fraction(rng.randint(-3, 3))]
+    if rng.random() < 0.25:
+        # the whole toolpath under a coordinate transform (set before the start position is reached, so that machine and
+        # builder agree): rotations couple the axes, so a one-axis request moves several machine axes
+        ops = []
+        for _ in range(rng.randint(1, 2)):
+            ops.append(rng.choice([("rotate", float(rng.choice([30, 45, 90, -60])), rng.choice("xyz")), ("translate", float(rng.randint(-9, 9)), float(rng.randint(-9, 9)), 2.0),
+                                   ("scale", 2.0), ("mirror", rng.choice(["xy", "yz", "zx"]))]))
+        els.append(("transform", ops))
+    transformed = bool(els)
     els.append(("start", tuple(pos)))
     for _ in range(rng.randint(2, 10 if thorough else 6)):
         k = rng.randrange(14)
+        if transformed and k == 3:
+            k = 0        # absolute-bypass moves are documented to bypass the transform: machine != transform(tracked) afterwards
         if k < 3:
             axes = [a for a in range(3) if rng.random() < 0.6] or [0]
             tgt = {a: Fraction(rng.randint(-160, 160), 8) for a in axes}
@@ -112,7 +123,17 @@ def execute(els, relative, dp=5):
     for el in els:
         k = el[0]
         rel = mode_rel[-1]
-        if k == "start":
+        if k == "transform":
+            for op in el[1]:
+                if op[0] == "rotate":
+                    g.transform.rotate(op[1], op[2])
+                elif op[0] == "translate":
+                    g.transform.translate(op[1], op[2], op[3])
+                elif op[0] == "scale":
+                    g.transform.scale(op[1])
+                else:
+                    g.transform.mirror(op[1])
+        elif k == "start":
             g.set_distance_mode("absolute")
             g.move(x=float(el[1][0]), y=float(el[1][1]), z=float(el[1][2]))
             logical = [float(v) for v in el[1]]
@@ -199,6 +220,10 @@ def main():
              [("start", (Fraction(12), Fraction(0), Fraction(0))), ("ctx", "relative"), ("move_absolute", {1: Fraction(3)}), ("move", {0: Fraction(13)}),
               ("endctx",), ("move", {0: Fraction(20), 1: Fraction(20)})],
              [("start", (Fraction(5), Fraction(5), Fraction(1))), ("parametric", (0.0, 0.0, 6.0, 1.0)), ("move", {0: Fraction(1)})]]
+    paths.append([("transform", [("rotate", 30.0, "z")]), ("start", (Fraction(4), Fraction(2), Fraction(1))), ("move", {0: Fraction(9)}), ("rapid", {2: Fraction(3)}),
+                  ("move", {1: Fraction(-2)}), ("move", {0: Fraction(5), 2: Fraction(0)})])
+    paths.append([("transform", [("rotate", 90.0, "x"), ("translate", 3.0, -1.0, 2.0)]), ("start", (Fraction(1), Fraction(1), Fraction(1))), ("move", {1: Fraction(6)}),
+                  ("circle", (-3.0, 0.0)), ("move", {2: Fraction(4)})])
     paths += [gen_path(run.rng, run.thorough) for _ in range(n)]
     found = False
     dist = {}
